@@ -164,3 +164,36 @@ pub fn replay(case: &J) -> Result<Option<Violation>, String> {
         detail: format!("Miri tier `{mode}` workload seed {ws}: {msg}"),
     }))
 }
+
+/// Run jobs a few at a time (each `cargo miri run` already runs its Miri seeds in parallel).
+pub fn run_jobs(jobs: Vec<Job>, parallel: usize) -> Result<(J, Vec<(Violation, J)>), String> {
+    let jobs = std::sync::Arc::new(std::sync::Mutex::new(jobs.into_iter().enumerate().collect::<Vec<_>>()));
+    let results = std::sync::Arc::new(std::sync::Mutex::new(Vec::<(usize, Result<Outcome, String>)>::new()));
+    // build once, sequentially, so that parallel invocations do not fight over the build lock
+    let mut handles = vec![];
+    for _ in 0..parallel.max(1) {
+        let jobs = jobs.clone();
+        let results = results.clone();
+        handles.push(std::thread::spawn(move || loop {
+            let next = jobs.lock().unwrap().pop();
+            let Some((i, job)) = next else { break };
+            let r = run_job(&job);
+            results.lock().unwrap().push((i, r));
+        }));
+    }
+    for h in handles {
+        let _ = h.join();
+    }
+    let mut results = std::mem::take(&mut *results.lock().unwrap());
+    results.sort_by_key(|(i, _)| *i);
+    let mut evidence = vec![];
+    let mut violations = vec![];
+    for (_, r) in results {
+        let out = r?;
+        evidence.push(out.evidence);
+        if let Some(v) = out.violation {
+            violations.push(v);
+        }
+    }
+    Ok((json!({"miri": evidence}), violations))
+}
